@@ -748,6 +748,87 @@ def replay_enforce_cond(obj):
     return _cond_run(domain, obj["names"], [(k, tuple(l)) for k, l in obj["enf_history"]]) != obj["expected"]
 
 
+
+# ------------------------------------------------------------------ several role definitions of different kinds in one model
+
+MIXED = """[request_definition]
+r = sub, obj, act
+[policy_definition]
+p = sub, obj, act
+[role_definition]
+g = %s
+g2 = %s
+[policy_effect]
+e = some(where (p.eft == allow))
+[matchers]
+m = g(r.sub, p.sub) && g2(r.obj, p.obj) && r.act == p.act
+"""
+MIXED_KINDS = {"cond+plain": ("_, _, (_, _)", "_, _"), "plain+cond": ("_, _", "_, _, (_, _)"), "plain+plain": ("_, _", "_, _"), "cond+cond": ("_, _, (_, _)", "_, _, (_, _)")}
+
+
+def _mixed_run(kind, glinks, g2links, prules, reqs):
+    """a real Enforcer on a model whose two role definitions are of the given kinds; every link condition holds"""
+    casbin = common.use_repo()
+    d1, d2 = MIXED_KINDS[kind]
+    e = casbin.Enforcer(casbin.Enforcer.new_model(text=MIXED % (d1, d2)))
+    for r in prules:
+        e.add_policy(*r)
+    for pt, d, links in (("g", d1, glinks), ("g2", d2, g2links)):
+        for a, b in links:
+            e.add_named_grouping_policy(pt, a, b, *(["t", "x"] if "(" in d else []))
+            if "(" in d:
+                e.add_named_link_condition_func(pt, a, b, lambda *args: True)
+    out = []
+    for q in reqs:
+        try:
+            v = e.enforce(*q)
+            out.append("T" if v is True else "F" if v is False else repr(v))
+        except Exception as ex:  # noqa
+            out.append(rm_corr.fmt_exc(ex))
+    return out
+
+
+def _closure(links, x):
+    seen, todo = {x}, [x]
+    while todo:
+        n = todo.pop()
+        for a, b in links:
+            if a == n and b not in seen:
+                seen.add(b)
+                todo.append(b)
+    return seen
+
+
+def mixed_definitions_probe(ctx, res, prop, n):
+    """g() and g2() in one matcher, the two definitions plain or conditional in every combination: each role function
+    must answer from ITS OWN definition's assignments (the specification: reachability over that definition's links)"""
+    rng = ctx["rng"]
+    subs, objs = ["u1", "u2", "r1", "r2"], ["o1", "o2", "grp"]
+    for kind in MIXED_KINDS:
+        for _ in range(max(4, n // 40)):
+            gl = [tuple(rng.sample(subs, 2)) for _ in range(rng.randint(0, 3))]
+            g2l = [tuple(rng.sample(objs, 2)) for _ in range(rng.randint(0, 2))]
+            gl, g2l = list(dict.fromkeys(gl)), list(dict.fromkeys(g2l))
+            pr = list(dict.fromkeys((rng.choice(subs), rng.choice(objs), rng.choice(["read", "write"])) for _ in range(rng.randint(1, 3))))
+            reqs = [(s_, o, a) for s_ in subs[:2] + subs[2:3] for o in objs[:2] for a in ("read", "write")]
+            got = _mixed_run(kind, gl, g2l, pr, reqs)
+            for q, v in zip(reqs, got):
+                exp = "T" if any(ps in _closure(gl, q[0]) and po in _closure(g2l, q[1]) and pa == q[2] for ps, po, pa in pr) else "F"
+                res.evaluations += 1
+                res.count("stream:mixed-definitions:" + kind)
+                if v != exp:
+                    res.violation({"signature": f"{prop}:enforce:mixed-definitions:{kind}", "replay_kind": "enforce-mixed", "mixed_kind": kind, "g": [list(x) for x in gl], "g2": [list(x) for x in g2l],
+                                   "p": [list(x) for x in pr], "request": list(q), "expected": exp, "observed": v, "model_text": MIXED % MIXED_KINDS[kind],
+                                   "what": f"model with g = {MIXED_KINDS[kind][0]} and g2 = {MIXED_KINDS[kind][1]}, g links {gl}, g2 links {g2l}, rules {pr}: enforce{q} = {v}, reachability over each definition's own assignments gives {exp}"})
+                    break
+            res.nontrivial.add(hash(("mixed", kind, repr(gl), repr(g2l), repr(pr))))
+
+
+def replay_enforce_mixed(obj):
+    got = _mixed_run(obj["mixed_kind"], [tuple(x) for x in obj["g"]], [tuple(x) for x in obj["g2"]], [tuple(x) for x in obj["p"]], [tuple(obj["request"])])
+    return got[0] != obj["expected"]
+
+
 # ------------------------------------------------------------------ entry points
 
 
@@ -792,6 +873,7 @@ def run(ctx):
         rm_corr.run_all(ctx, res, "C03", hs, chunk=300)
         enforce_probe(ctx, res, "C03", nenf)
         enforce_probe_cond(ctx, res, "C03", nenf)
+        mixed_definitions_probe(ctx, res, "C03", nenf)
         if res.spec_violations:
             break
     return res
@@ -833,4 +915,6 @@ def replay(obj):
         return replay_enforce(obj)
     if obj.get("replay_kind") == "enforce-cond":
         return replay_enforce_cond(obj)
+    if obj.get("replay_kind") == "enforce-mixed":
+        return replay_enforce_mixed(obj)
     return rm_corr.replay(obj)
